@@ -64,23 +64,26 @@ def DATEDIF(
     datetime_start_date = utils.number_to_datetime(int(start_date))
     datetime_end_date = utils.number_to_datetime(int(end_date))
 
+    # Complete years and months by calendar arithmetic (a yearly or monthly
+    # recurrence rule skips the periods that lack the start's day, e.g. the
+    # years after a 29 February or the months after a 31st).
     if str(unit).upper() == 'Y':
-        date_list = list(rrule.rrule(rrule.YEARLY,
-                                     dtstart=datetime_start_date,
-                                     until=datetime_end_date))
-        return len(date_list) - 1  # end of day to end of day / "full days"
+        years = datetime_end_date.year - datetime_start_date.year
+        if ((datetime_end_date.month, datetime_end_date.day)
+                < (datetime_start_date.month, datetime_start_date.day)):
+            years -= 1
+        return years
 
     elif str(unit).upper() == 'M':
-        date_list = list(rrule.rrule(rrule.MONTHLY,
-                                     dtstart=datetime_start_date,
-                                     until=datetime_end_date))
-        return len(date_list) - 1  # end of day to end of day / "full days"
+        months = (
+            (datetime_end_date.year - datetime_start_date.year) * 12
+            + datetime_end_date.month - datetime_start_date.month)
+        if datetime_end_date.day < datetime_start_date.day:
+            months -= 1
+        return months
 
     elif str(unit).upper() == 'D':
-        date_list = list(rrule.rrule(rrule.DAILY,
-                                     dtstart=datetime_start_date,
-                                     until=datetime_end_date))
-        return len(date_list) - 1  # end of day to end of day / "full days"
+        return (datetime_end_date - datetime_start_date).days
 
     elif str(unit).upper() == 'MD':
         modified_datetime_start_date = datetime_start_date.replace(year=1900,
